@@ -65,6 +65,8 @@ def cases(tier):
     for lid, w in _layouts(tier):
         if lid in ("own-V", "ps[p1,c0,p0]-V", "ps[p0,c0]+ps[f1,p1]-V") or (thorough and lid.endswith("-M")):
             for o in (("p0", "p1", "c0"), ("c0", "p0", "p1"), ("p1", "c0", "p0")):
+                if not thorough and lid == "own-V" and o != ("p1", "c0", "p0"):
+                    continue  # (~100 s each: three fully symbolic operators on an 8-dimensional symbolic state)
                 out.append({"id": f"EXPR3/{lid}/{','.join(o)}", "world": w, "op": "EXPR3", "operands": list(o)})
     # CSWAP over three envelopes
     S3 = cm.subs(3, 0, 2, 2)
